@@ -327,6 +327,10 @@ func checkC10(c *Ctx) {
 	c.checkExec("O4 exec")
 	c.checkNewCall("O4 newcall")
 	c.checkTimerSinkAppendOnly("O6 sink-append-only")
+	// "carrying d and the scope's name and tags": the timer (plain and cached) is created under the name
+	// and tags every other metric of the scope is delivered with - shared with C06 O1
+	c.shared(checkC06, map[string]string{"O1 sanitize-before-sink": "O7 scope-name-and-tags"})
+
 }
 
 func (c *Ctx) checkExec(rule string) {
